@@ -776,6 +776,17 @@ func (c *Ctx) systemDictIsolation() {
 		}
 		found[key] = true
 		src := c.freshComposite(val, 0)
+		if ks, _, hdr, isList := c.rangedKeys(mu.Key); isList && hdr != nil && len(ks) > 0 {
+			// the key runs over a literal list of names (ext_x5.go): one entry per name; a value made
+			// outside the loop would be one object under all of these names
+			key = strings.Join(ks, ", ")
+			for _, k := range ks {
+				found[k] = true
+			}
+			if src == "fresh" && len(ks) > 1 && !valueMadeIn(val, mu.Block()) {
+				src = "?"
+			}
+		}
 		construct := key + " is an object of its own in every interpreter"
 		switch {
 		case src == "fresh":
